@@ -291,7 +291,8 @@ def run(ctx: Ctx) -> None:
             else:
                 order = [(alpha, 60_000), (ALPHA, 120_000 if not extra
                                            else 20_000),
-                         (SUB, 400_000 if not extra else 16_000)]
+                         (SUB, 400_000 if (not extra and W * H <= 9)
+                          else 16_000)]
             a = None
             for (cand, lim) in order:
                 if len(cand) ** d <= lim:
